@@ -200,7 +200,7 @@ def check_read(case, ctx):
 KNOWN_PREDICATES = {"stops_before_bpms": _stops_early}
 
 SUBS = [
-    Sub("read", check_read, strategy=case_st, examples={"quick": 260, "thorough": 2500}, shards={"quick": 8, "thorough": 16}, fuzz={"thorough": 150}),
+    Sub("read", check_read, strategy=case_st, examples={"quick": 260, "thorough": 2500}, shards={"quick": 16, "thorough": 16}, fuzz={"thorough": 150}),
 ]
 
 MANIFEST = dict(
